@@ -196,7 +196,7 @@ Proof.
   - unfold resolve_kind_def in H. apply find_some in H as [_ Q]. now apply str_eqb_eq in Q.
 Qed.
 
-Lemma both_unfold c m k t fs st cs u :
+Lemma both_unfold9 c m k t fs st cs u :
   both c (DD m k t fs st cs u) =
   (let cres := cres_of c cs in
    let as_err :=
@@ -204,10 +204,10 @@ Lemma both_unfold c m k t fs st cs u :
      | UFail f => UFail f
      | UPanic w => UPanic w
      | UOk def =>
-         let x := collect_fields (map (fun nv => (fst nv, bind_field c def k (fst nv) (snd nv))) fs) in
+         let x := collect_fields (map (fun nv => (fst nv, bind_field c def k (fst nv) (snd nv))) (sort_fields fs)) in
          match proj_panic x, proj_fails x with
          | Some w, _ => UPanic w
-         | None, _ :: _ => UFail (proj_fails x)
+         | None, f :: _ => UFail [f]
          | None, [] => match cres with UOk cs' => UOk (RErr def m (proj_typed x) (proj_unknown x) st cs') | UFail f => UFail f | UPanic w => UPanic w end
          end
      end in
@@ -283,7 +283,7 @@ Proof.
         exfalso. destruct kid as [ke kk]. destruct H5 as [Hne _]. cbn in H2.
         destruct (is_errdef_error ke); inversion H2; congruence.
     - inversion IH; subst. inversion Hmk; subst. inversion Huk; subst. now apply IHr. }
-  rewrite both_unfold. cbv zeta.
+  rewrite both_unfold9. cbv zeta.
   destruct (is_errdef_error e) eqn:Ee.
   - (* an errdef node: its kind is registered, it has no fields *)
     injection Hd as E1 E2 E3 E4 E5 E6. destruct (Hme eq_refl) as [_ Hf]. rewrite Hf in E5. cbn in E5.
